@@ -13,6 +13,7 @@ from . import algos_rebalance as rb
 from . import core_getters as gt
 from . import algos_weigh as wg
 from . import core_tree as tr
+from . import algos_risk as rk
 
 UPD = [("date", "date"), ("data", "optdata"), ("inow", "optint")]
 
@@ -73,6 +74,8 @@ def build():
         reg(c, v)
     for c, v in tr.contracts():
         reg(c, v)
+    for c, v in rk.contracts():
+        reg(c, v)
     for c, v in sel.contracts():
         reg(c, v)
         if v is None:
@@ -99,6 +102,7 @@ def build():
     loops.update(rb.LOOPS)
     loops.update(wg.LOOPS)
     loops.update(tr.LOOPS)
+    loops.update(rk.LOOPS)
     # state merging at if-joins keeps StrategyBase.update at tens of paths; for the non-linear sizing
     # search of allocate separate paths are much easier for the solver
     options = {"bt.core.SecurityBase.allocate": dict(merge=False)}
